@@ -269,8 +269,8 @@ func (r *run) step(op map[string]any, ln *Line) {
 func (r *run) connect(op map[string]any, ln *Line) {
 	srv := r.srv
 	switch s(op, "kind") {
-	case "auth":
-		c := hs.Client{Kind: "auth", K: s(op, "k"), Ck: s(op, "ck"), Chain: s(op, "chain"), Priv: b(op, "priv"), Nsig: s(op, "nsig"),
+	case "auth", "mixedFA", "mixedAF":
+		c := hs.Client{Kind: s(op, "kind"), K: s(op, "k"), Ck: s(op, "ck"), Chain: s(op, "chain"), Priv: b(op, "priv"), Nsig: s(op, "nsig"),
 			St: s(op, "stt"), Skip: b(op, "skip"), Pref: s(op, "pref"), Cn: b(op, "cn")}
 		switch s(op, "nid") {
 		case "own":
@@ -456,7 +456,32 @@ func (r *run) malformed(op map[string]any, ln *Line) {
 		network = "unix"
 	}
 	switch cls {
-	case "nontls", "silentClose", "dropMidHello", "dropAfterHello":
+	case "clientAlert":
+		// a TLS client that aborts with a fatal alert after seeing the server certificate
+		protos := r.malformedProtos("b64rand", pfx)
+		if pfx != "pref" {
+			if pfx == "fetch" {
+				protos, _ = nodetls.BreakIntoNextProtos(nodeenrollment.FetchNodeCredsNextProtoV1Prefix, r.validFetchB64(false))
+			} else if n, ok := srv.Nodes["k1"]; ok && len(n.Creds.CertificateBundles) == 2 && srv.RecordPresent("k1") {
+				protos, _, _ = srv.BuildAuthProtos(hs.Client{Kind: "auth", K: "k1", Ck: "k1", Nsig: "k1", Pref: "cur"})
+			}
+		}
+		done := make(chan struct{})
+		go func() {
+			defer close(done)
+			c, err := net.DialTimeout(network, srv.Addr, 2*time.Second)
+			if err != nil {
+				return
+			}
+			defer c.Close()
+			_ = c.SetDeadline(time.Now().Add(3 * time.Second))
+			tc := tls.Client(c, &tls.Config{NextProtos: protos, ServerName: "does-not-match.invalid", MinVersion: tls.VersionTLS12}) // verifies, hence rejects
+			_ = tc.Handshake()
+		}()
+		res := srv.AcceptOne(8 * time.Second)
+		r.record(ln, res)
+		<-done
+	case "nontls", "silentClose", "dropMidHello", "dropAfterHello", "resetMidHello", "resetAfterHello":
 		c, err := net.DialTimeout(network, srv.Addr, 2*time.Second)
 		if err != nil {
 			ln.Res = "harness-error"
@@ -468,14 +493,19 @@ func (r *run) malformed(op map[string]any, ln *Line) {
 			junk := make([]byte, 1+r.rng.Intn(300))
 			r.rng.Read(junk)
 			c.Write(junk)
-		case "dropMidHello", "dropAfterHello":
+		case "dropMidHello", "dropAfterHello", "resetMidHello", "resetAfterHello":
 			hello := captureClientHello(r.malformedProtos("b64rand", pfx))
-			if cls == "dropMidHello" && len(hello) > 10 {
+			if strings.HasPrefix(cls, "reset") {
+				if tcp, ok := c.(*net.TCPConn); ok {
+					_ = tcp.SetLinger(0) // close => RST
+				}
+			}
+			if strings.HasSuffix(cls, "MidHello") && len(hello) > 10 {
 				hello = hello[:5+r.rng.Intn(len(hello)-6)]
 			}
 			c.Write(hello)
 		}
-		if cls == "dropAfterHello" {
+		if strings.HasSuffix(cls, "AfterHello") {
 			time.Sleep(20 * time.Millisecond)
 		}
 		c.Close()
